@@ -310,7 +310,7 @@ def analyse(tracefile, viol, hits, cfgname):
     with open(tracefile) as f:
         for i, line in enumerate(f, 1):
             if i not in hits and i not in by_line and '"t":"op"' not in line and '"t":"snap"' not in line \
-               and '"t":"reset"' not in line and '"t":"stim"' not in line:
+               and '"t":"reset"' not in line and '"t":"stim"' not in line and '"t":"fatal"' not in line:
                 continue
             ln = json.loads(line)
             t = ln['t']
@@ -322,6 +322,11 @@ def analyse(tracefile, viol, hits, cfgname):
                 continue
             if t == 'snap':
                 cur = ln['post']
+                continue
+            if t == 'fatal':
+                for (p, n) in by_line.get(i, []):
+                    violations.append(dict(property=p, check=n, line=i, op='(between calls)', out=ln.get('out'), k=[stim.get('k') if stim else 0, 0],
+                                           fk=None, a=None, c=None, s=None, cfg=cfgname, stim=stim, pre=shape(cur), sig='fatal', id=stim.get('id') if stim else None, i=-1))
                 continue
             if t != 'op':
                 continue
